@@ -219,6 +219,57 @@ class Checker:
                 self.fail("snapshot", "snapshot-balances-changed", "order %s: balances of snapshot %d changed later" % (name, i))
         return cs
 
+    def restart(self, order, how, name):
+        """The node is restarted: the blocks of `order` are written to a fresh block store (how[0] per flush; how[1] = SQL
+        statement at which the LAST flush fails with "disk full", or None), the store is reopened, the chain state is rebuilt by
+        the start-up code, blocks that did not reach the disk are downloaded again -- and the ledger at every block must
+        still be the replay of its ancestors."""
+        import os
+        env.import_networking()
+        from skepticoin import blockstore as BS
+        from skepticoin.scripts import utils as U
+        b = self.b
+        blocks = [self.world.blocks[l] for l in order]
+        path = os.path.join(env.fresh_subdir("c03restart"), "chain.db")
+        old = BS.DefaultBlockStore.instance
+        try:
+            with env.quiet():
+                store = BS.BlockStore(path)
+            for k, x in enumerate(blocks):
+                store.add_block_to_buffer(b.to_sk_block(x))
+                if (k + 1) % how[0] == 0 and (how[1] is None or k + 1 < len(blocks)):
+                    store.flush_blocks_to_disk()
+            if how[1] is not None and store.write_buffer:
+                store.connection = chainexec.FaultyConnection(store.connection, how[1])
+                try:
+                    store.flush_blocks_to_disk()
+                except chainexec.DiskFull:
+                    self.stats["restarts_after_failed_flush"] = self.stats.get("restarts_after_failed_flush", 0) + 1
+                store.connection = store.connection.real
+            else:
+                store.flush_blocks_to_disk()
+            store.close()
+            with env.quiet():
+                store2 = BS.BlockStore(path)
+                BS.DefaultBlockStore.instance = store2
+                cs = U.read_chain_from_disk()
+            store2.close()
+        except Exception as e:
+            self.fail("restart", "restart-raised:" + type(e).__name__, "order %s: writing the blocks to the store and rebuilding the state from it raised %r" % (name, e))
+            return None
+        finally:
+            BS.DefaultBlockStore.instance = old
+        for x in blocks:
+            if x.id() not in cs.block_by_hash:
+                try:
+                    cs = cs.add_block(b.to_sk_block(x), x.ts + 10 ** 6)
+                except Exception as e:
+                    self.fail("restart", "rejected-after-restart", "order %s: after a restart block %s, downloaded again, raised %r" % (name, x.id().hex()[:12], e))
+                    return None
+        self.stats["restarts"] = self.stats.get("restarts", 0) + 1
+        self.check_state(cs, name)
+        return cs
+
     def final_digest(self, cs):
         """order-independent content: per-block unspent maps + balances (head/tips may legitimately differ by order)"""
         h = hashlib.sha256()
@@ -255,6 +306,10 @@ def execute(case, rnd_orders=None):
         cs = c.deliver(od, validated, "#%d%s" % (k, "v" if validated else "n"), rnd=wr, snapshots=(k < 2), probe=(k in (0, 2)))
         if cs is not None:
             digs.add(c.final_digest(cs))
+        if k == 0 and case.get("restart"):
+            cs_r = c.restart(od, case["restart"], "#%d+restart" % k)
+            if cs_r is not None:
+                digs.add(c.final_digest(cs_r))
     if len(digs) > 1:
         c.fail("orders_disagree", "orders-disagree", "%d distinct ledger contents over %d arrival orders" % (len(digs), len(orders)))
     c.stats["orders"] = len(orders)
@@ -281,7 +336,11 @@ def run(shard, tier, seed):
     @given(st.randoms(use_true_random=True), st.sampled_from(chainexec.CFGS), st.one_of(st.integers(3, 6), st.integers(7, 14 if tier == "quick" else 24)))
     def prop(rnd, cfg, nb):
         case = chainexec.gen_case(rnd, cfg, nb, 0.0, ["C01"], p_fork=0.6, p_copy=0.25, p_same_cb=0.1, p_tx=0.75, zero_rewards=True)
+        if rnd.random() < 0.5:
+            case["restart"] = [rnd.choice([1, 2, 3, 100]), rnd.choice([None, None, 3, 4, 4, 5])]
         c, fails = execute(case, rnd)
+        res.count("restarts", c.stats.get("restarts", 0))
+        res.count("restarts_after_failed_flush", c.stats.get("restarts_after_failed_flush", 0))
         res.evaluations += c.stats.get("orders", 0)
         res.count("trees")
         res.count("orders_delivered", c.stats.get("orders", 0))
